@@ -52,8 +52,8 @@ def vdriver(name, gen_args, call, expect, kinds=VK):
 
 
 none = lambda k, vals, run: [()]
-vdriver("is_na", none, lambda v: v.is_na(), lambda v: [is_missing(x) for x in v])
-vdriver("drop_na", none, lambda v: v.drop_na(), lambda v: [x for x in v if not is_missing(x)])
+vdriver("is_na", none, lambda v: v.is_na(), lambda v: [is_missing(x) for x in v], kinds=VK + ("fix", "td"))
+vdriver("drop_na", none, lambda v: v.drop_na(), lambda v: [x for x in v if not is_missing(x)], kinds=VK + ("fix", "td"))
 vdriver("replace_na", lambda k, vals, run: [(enc([POOLS[k][0]])[0],)], lambda v, r: v.replace_na(dec([r])[0]),
         lambda v, r: [dec([r])[0] if is_missing(x) else x for x in v], kinds=("int", "float", "str", "date"))
 vdriver("head", lambda k, vals, run: [(n,) for n in (0, 1, 2, 5)], lambda v, n: v.head(n), lambda v, n: list(v)[:n])
@@ -136,8 +136,9 @@ def rank_driver(run):
 
 @driver(PV + "_optimize_for_argsort[order-isomorphism: bounded only]")
 def optimize_driver(run):
-    run.bound = "string vectors of <= 3 elements over {'', 'a', 'b', 'ab', 50-char, astral}; other kinds: identity"
-    pool = ["", "a", "b", "ab", "b" * 50, "\U0001F600"]
+    run.bound = ("string vectors of <= 3 elements over {'', 'a', 'b', 'ab', 49/50-char, two 51-char strings sharing a 50-char prefix, astral}; "
+                 "other kinds: identity")
+    pool = ["", "a", "b", "ab", "b" * 50, "\U0001F600", "c" * 49, "c" * 50 + "x", "c" * 50 + "y"]
     def gen():
         for n in range(4):
             for combo in itertools.product(pool, repeat=n):
@@ -155,9 +156,9 @@ def optimize_driver(run):
 
 
 vdriver("sort[ascending]", none, lambda v: v.sort(), lambda v: sorted([x for x in v if not is_missing(x)]) + [x for x in v if is_missing(x)],
-        kinds=("int", "float", "str", "date", "bool"))
+        kinds=("int", "float", "str", "date", "bool", "imin", "u8", "fix", "td"))
 vdriver("sort[descending]", none, lambda v: v.sort(dir=-1), lambda v: sorted([x for x in v if not is_missing(x)], reverse=True) + [x for x in v if is_missing(x)],
-        kinds=("int", "float", "str", "date", "bool"))
+        kinds=("int", "float", "str", "date", "bool", "imin", "u8", "fix", "td"))
 
 
 def _uniq(v):
@@ -169,3 +170,301 @@ def _uniq(v):
 
 
 vdriver("unique", none, lambda v: v.unique(), _uniq, kinds=("int", "float", "str", "date", "bool"))
+
+
+# ---- C10: construction from Python / NumPy scalars, the missing-value model, equal ---------------------
+import datetime as _dt
+
+
+class _Obj:
+    def __repr__(self):
+        return "OBJ"
+
+
+_OBJ = _Obj()
+CTOR_POOL = {
+    "None": None, "nan": float("nan"), "True": True, "1": 1, "2.5": 2.5, "'a'": "a",
+    "date": _dt.date(2020, 1, 2), "datetime": _dt.datetime(2020, 1, 2, 3, 4, 5), "timedelta": _dt.timedelta(days=1),
+    "bytes": b"x", "OBJ": _OBJ,
+    "np.int64": np.int64(3), "np.float64": np.float64(1.5), "np.nan": np.float64("nan"), "np.str_": np.str_("b"),
+    "np.datetime64": np.datetime64("2020-01-03"), "np.bool_": np.bool_(True), "np.timedelta64": np.timedelta64(2, "D"),
+}
+# explicit dtypes offered for a homogeneous list of the given tags (plus missing values)
+CTOR_DTYPES = {
+    "True": ["bool", "object"], "1": ["int", "float", "object"], "2.5": ["float", "object"], "'a'": ["str", "object"],
+    "date": ["datetime64[D]", "object"], "datetime": ["datetime64[us]", "object"], "timedelta": ["timedelta64[us]", "object"],
+    "bytes": ["object"], "OBJ": ["object"], "np.int64": ["int", "float"], "np.float64": ["float"], "np.str_": ["str"],
+    "np.datetime64": ["datetime64[D]"], "np.bool_": ["bool"], "np.timedelta64": ["timedelta64[D]"],
+}
+_DT = {"bool": bool, "int": int, "float": float, "str": str, "object": object}
+
+
+def _missing_in(x):
+    return x is None or (isinstance(x, float) and x != x)
+
+
+def _same_value(got, x):
+    """tolist() returns the original value (NumPy scalars as their Python value; NumPy's own conversion of a mixed
+    list to its common type - int to float, number to str - is accepted)"""
+    if isinstance(x, np.generic):
+        x = x.item()
+    if got is x:
+        return True
+    try:
+        if got == x:
+            return True
+        if isinstance(got, str) and not isinstance(x, str):
+            return True          # NumPy's own string conversion of a non-string in a list with strings
+        if isinstance(got, float) and isinstance(x, (int, bool)) and got == float(x):
+            return True
+    except Exception:
+        pass
+    return False
+
+
+def _numpy_cast_of(v, raw, x):
+    """the raw element is what NumPy's own cast of the original value to the vector's dtype gives (mixed lists)"""
+    try:
+        c = np.array([x]).astype(v.dtype)[0]
+        return bool(c == raw) and not is_missing(raw)
+    except Exception:
+        return False
+
+
+def _raw_is_na_of(v, raw):
+    """raw element is THE missing value of the vector's type (table of the property statement)"""
+    if v.is_float():
+        return isinstance(raw, (float, np.floating)) and raw != raw
+    if v.is_datetime() or v.is_timedelta():
+        return isinstance(raw, (np.datetime64, np.timedelta64)) and bool(np.isnat(raw))
+    if v.is_string() or v.dtype.kind == "U":
+        return isinstance(raw, str) and raw == ""
+    return raw is None and v.dtype == object
+
+
+def _check_construction(run, tags, dtype):
+    xs = [CTOR_POOL[t] for t in tags]
+    inp = [list(tags), dtype]
+    dt = _DT.get(dtype, dtype)
+    try:
+        v = Vector(xs) if dtype is None else Vector(xs, dt)
+    except Exception as e:
+        run.check(inp, False, expected="a vector", got=f"raised {type(e).__name__}: {e}", clause="construction answers")
+        return
+    miss = [_missing_in(x) for x in xs]
+    run.check(inp, isinstance(v, Vector) and v.ndim == 1 and len(v) == len(xs), expected=len(xs), got=getattr(v, "shape", None),
+              clause="one element per input value")
+    if len(v) != len(xs) or v.ndim != 1:
+        return
+    flags = [bool(b) for b in v.is_na()]
+    run.check(inp, flags == miss, expected=miss, got=flags, clause="is_na flags exactly the None/NaN positions")
+    raws = list(v)
+    run.check(inp, all(_raw_is_na_of(v, r) for r, m in zip(raws, miss) if m), expected="the missing value of the resulting type",
+              got=[repr(r) for r, m in zip(raws, miss) if m], clause="None/NaN become the missing value of the inferred type")
+    out = v.tolist()
+    run.check(inp, len(out) == len(xs) and all((o is None) if m else (_same_value(o, x) or _numpy_cast_of(v, r, x)) for o, x, m, r in zip(out, xs, miss, raws)),
+              expected=[None if m else x for x, m in zip(xs, miss)], got=out, clause="tolist returns the original values with None at the missing positions")
+    nonmiss = [x for x, m in zip(xs, miss) if not m]
+    if dtype is None and any(miss) and nonmiss:
+        numeric = lambda x: (isinstance(x, (int, float, np.integer, np.floating)) and not isinstance(x, (bool, np.bool_, np.timedelta64)))
+        dateish = lambda x: isinstance(x, (_dt.date, np.datetime64))
+        stringy = lambda x: isinstance(x, str)
+        if all(numeric(x) for x in nonmiss):
+            run.check(inp, v.is_float(), expected="float", got=str(v.dtype), clause="numbers with missing values widen to float (NaN)")
+        elif all(stringy(x) for x in nonmiss):
+            run.check(inp, v.is_string() or v.dtype.kind == "U", expected="string", got=str(v.dtype), clause="strings take '' as missing")
+        elif all(type(x) is type(nonmiss[0]) for x in nonmiss) and dateish(nonmiss[0]):
+            run.check(inp, v.is_datetime(), expected="datetime64", got=str(v.dtype), clause="dates take NaT as missing")
+    try:
+        w = Vector(out, v.dtype)
+        ok = bool(w.equal(v)) and bool(v.equal(w))
+        obs = list(w)
+    except Exception as e:
+        ok, obs = False, f"raised {type(e).__name__}: {e}"
+    run.check(inp, ok, expected=[repr(r) for r in raws], got=obs, clause="Vector(v.tolist(), v.dtype) equals v")
+    run.check(inp, bool(v.equal(v)), expected=True, got=False, clause="equal is reflexive")
+
+
+@driver(PV + "__new__")
+def vconstruct(run):
+    n = 3
+    run.bound = (f"all lists of <= {n} values over {len(CTOR_POOL)} representatives (bool, int, float, str, date, datetime, timedelta, bytes, "
+                 "an arbitrary object, None, NaN; Python and NumPy scalars) without dtype; homogeneous lists plus None/NaN with each "
+                 "compatible explicit dtype; '' and NaT themselves are not offered as input values")
+    tags = list(CTOR_POOL)
+
+    def gen():
+        for k in range(n + 1):
+            for combo in itertools.product(tags, repeat=k):
+                yield list(combo), None
+        for t, dts in CTOR_DTYPES.items():
+            for d in dts:
+                for combo in itertools.product([t, "None", "nan"], repeat=min(n, 2)):
+                    yield list(combo), d
+                yield [t, t, "None"], d
+    for tg, d in run.inputs(gen()):
+        _check_construction(run, tg, d)
+
+
+@driver(PV + "equal")
+def vequal(run):
+    n = ml(run)
+    run.bound = (f"all pairs (thorough: and triples of length <= 2) of same-kind vectors of <= {n} elements over int/float/str/date/object/bool pools "
+                 "incl. NaN, NaT, '', None")
+
+    def gen():
+        for k in VK:
+            vs = [vals for kk, vals in vectors(n, (k,))]
+            for a in vs:
+                for b in vs:
+                    yield k, a, b, None
+            if run.tier == "thorough":
+                small = [vals for kk, vals in vectors(2, (k,))]
+                for a in small:
+                    for b in small:
+                        for c in small:
+                            yield k, a, b, c
+    for k, a, b, c in run.inputs(gen()):
+        va, vb = mkcol(k, dec(a)), mkcol(k, dec(b))
+        inp = [k, a, b, c]
+        try:
+            eab, eba = bool(va.equal(vb)), bool(vb.equal(va))
+        except Exception as e:
+            run.check(inp, False, expected="an answer", got=f"raised {type(e).__name__}: {e}", clause="equal answers without raising")
+            continue
+        la, lb = list(va), list(vb)
+        spec = len(la) == len(lb) and all((is_missing(x) and is_missing(y)) or (not is_missing(x) and not is_missing(y) and bool(x == y))
+                                          for x, y in zip(la, lb))
+        run.check(inp, eab == spec, expected=spec, got=eab, clause="characterisation: same length, same missing positions, equal values elsewhere")
+        run.check(inp, eab == eba, expected=eab, got=eba, clause="equal is symmetric")
+        if a == b:
+            run.check(inp, eab, expected=True, got=eab, clause="equal is reflexive")
+        if c is not None:
+            vc = mkcol(k, dec(c))
+            if eab and bool(vb.equal(vc)):
+                run.check(inp, bool(va.equal(vc)), expected=True, got=False, clause="equal is transitive")
+
+
+@driver("dataiter/util.py::unique_types")
+def v_unique_types(run):
+    from dataiter import util
+    n = 3 if run.tier == "thorough" else 2
+    run.bound = f"all lists of <= {n} values over the {len(CTOR_POOL)} construction representatives"
+    tags = list(CTOR_POOL)
+    for combo in run.inputs(list(c) for k in range(n + 1) for c in itertools.product(tags, repeat=k)):
+        xs = [CTOR_POOL[t] for t in combo]
+        exp = {type(x) for x in xs if not _missing_in(x)}
+        try:
+            got = util.unique_types(xs)
+            ok = isinstance(got, set) and got == exp
+        except Exception as e:
+            got, ok = f"raised {type(e).__name__}: {e}", False
+        run.check(list(combo), ok, expected=sorted(map(repr, exp)), got=sorted(map(repr, got)) if isinstance(got, set) else got,
+                  clause="exactly the classes of the non-missing values")
+
+
+_TYPE_POOL = {"bool": bool, "int": int, "float": float, "str": str, "bytes": bytes, "object": object, "date": _dt.date,
+              "datetime": _dt.datetime, "timedelta": _dt.timedelta, "np.str_": np.str_, "np.bool_": np.bool_, "np.float64": np.float64,
+              "np.float32": np.float32, "np.int64": np.int64, "np.uint8": np.uint8, "np.datetime64": np.datetime64, "np.timedelta64": np.timedelta64,
+              "_Obj": _Obj}
+
+
+def _na_choice(types):
+    """the table of the property statement, written independently of the code"""
+    number = lambda t: t in (int, float) or (issubclass(t, (np.integer, np.floating)) )
+    if not types:
+        return None
+    if any(issubclass(t, str) for t in types):
+        return ""
+    if all(number(t) for t in types):
+        return float("nan")
+    if all(t in (_dt.date, _dt.datetime, np.datetime64) for t in types):
+        return np.datetime64("NaT")
+    return None
+
+
+@driver(PV + "_std_to_np_na_value")
+def v_na_choice(run):
+    n = 3 if run.tier == "thorough" else 2
+    run.bound = f"all sets of <= {n} classes out of {len(_TYPE_POOL)} (Python builtins, datetime classes, NumPy scalar types, a user class)"
+    names = list(_TYPE_POOL)
+    for combo in run.inputs(list(c) for k in range(n + 1) for c in itertools.combinations(names, k)):
+        types = {_TYPE_POOL[t] for t in combo}
+        exp = _na_choice(types)
+        try:
+            got = Vector._std_to_np_na_value(set(types))
+            ok = (got is None and exp is None) or (isinstance(exp, str) and isinstance(got, str) and got == exp) or \
+                 (isinstance(exp, float) and isinstance(got, float) and got != got) or \
+                 (isinstance(exp, np.datetime64) and isinstance(got, np.datetime64) and bool(np.isnat(got)))
+        except Exception as e:
+            got, ok = f"raised {type(e).__name__}: {e}", False
+        run.check(list(combo), ok, expected=exp, got=got, clause="missing value by table: none / strings / numbers / dates / other")
+
+
+_STD_KINDS = {
+    "bool": (bool, ["True", "np.bool_"], "b"), "int": (int, ["1", "np.int64"], "i"), "uint": (np.uint8, ["1"], "u"),
+    "float": (float, ["2.5", "1"], "f"), "datetime": ("datetime64[D]", ["date", "np.datetime64"], "M"),
+    "timedelta": ("timedelta64[us]", ["timedelta"], "m"), "string": (str, ["'a'", "np.str_"], "T"), "fixedstr": ("U3", ["'a'"], "U"),
+    "bytes": ("S1", ["bytes"], "S"), "object": (object, ["OBJ", "1", "'a'"], "O"),
+}
+_NA_KIND = {"b": "O", "i": "f", "u": "f", "f": "f", "M": "M", "m": "m", "T": "T", "U": "U", "S": "O", "O": "O"}
+
+
+def _mk_std_driver(kind):
+    dt, vals, ch = _STD_KINDS[kind]
+
+    @driver(PV + f"_std_to_np[dtype {kind}]")
+    def _d(run):
+        n = 3 if run.tier == "thorough" else 2
+        run.bound = f"all lists of <= {n} values over {vals} + None + NaN with the explicit dtype {dt!r}"
+        pool = vals + ["None", "nan"]
+        for combo in run.inputs(list(c) for k in range(n + 1) for c in itertools.product(pool, repeat=k)):
+            xs = [CTOR_POOL[t] for t in combo]
+            miss = [_missing_in(x) for x in xs]
+            try:
+                arr = Vector._std_to_np(list(xs), dt)
+                v = arr.view(Vector)
+                want = _NA_KIND[ch] if any(miss) else ch
+                run.check(list(combo), v.dtype.kind == want, expected=want, got=v.dtype.kind,
+                          clause="dtype kept without missing values, upcast per na_dtype table with them")
+                flags = [bool(b) for b in v.is_na()]
+                run.check(list(combo), len(v) == len(xs) and flags == miss and all(_raw_is_na_of(v, r) for r, m in zip(list(v), miss) if m),
+                          expected=miss, got=flags, clause="None / NaN positions hold the missing value of the resulting type, others do not")
+            except Exception as e:
+                run.check(list(combo), False, expected="an array", got=f"raised {type(e).__name__}: {e}", clause="conversion answers")
+    return _d
+
+
+for _k in _STD_KINDS:
+    _mk_std_driver(_k)
+
+
+@driver(PV + "_std_to_np[no dtype]")
+def v_std_inferred(run):
+    n = 3
+    run.bound = (f"all lists of <= {n} values over the {len(CTOR_POOL)} construction representatives without dtype, except lists whose "
+                 "non-missing values are NumPy scalars of one single type")
+    tags = list(CTOR_POOL)
+    for combo in run.inputs(list(c) for k in range(n + 1) for c in itertools.product(tags, repeat=k)):
+        xs = [CTOR_POOL[t] for t in combo]
+        miss = [_missing_in(x) for x in xs]
+        types = {type(x) for x, m in zip(xs, miss) if not m}
+        if len(types) == 1 and next(iter(types)).__module__ == "numpy":
+            continue
+        try:
+            v = Vector._std_to_np(list(xs)).view(Vector)
+            flags = [bool(b) for b in v.is_na()]
+            raws = list(v)
+            run.check(list(combo), len(v) == len(xs) and flags == miss and all(_raw_is_na_of(v, r) for r, m in zip(raws, miss) if m),
+                      expected=miss, got=[flags, [repr(r) for r in raws]],
+                      clause="None / NaN positions hold the missing value of the resulting type (None when NumPy falls back to object), others do not")
+            if v.dtype == object:
+                run.check(list(combo), all(r is x for r, x, m in zip(raws, xs, miss) if not m), expected=xs, got=raws,
+                          clause="non-missing values are handed to NumPy unchanged")
+            nm = [x for x, m in zip(xs, miss) if not m]
+            for cls_ in (_dt.datetime, _dt.date):
+                if any(type(x) is cls_ for x in nm) and all(type(x) in (cls_, np.datetime64) for x in nm):
+                    run.check(list(combo), v.is_datetime(), expected="datetime64", got=str(v.dtype),
+                              clause="dates / datetimes (and np.datetime64 scalars) are converted to a datetime64 dtype")
+        except Exception as e:
+            run.check(list(combo), False, expected="an array", got=f"raised {type(e).__name__}: {e}", clause="conversion answers")
